@@ -1,4 +1,6 @@
 import CCVerif.Lemmas.EvalGround
+import CCVerif.Lemmas.EvalSetOps
+import CCVerif.Lemmas.EvalExamples
 /-!
 # C01 — evaluation returns the set-theoretic value
 
@@ -14,8 +16,14 @@ set-theoretic meaning on the un-normalised tree).
 * `eval_refines_denote_statement` is the full refinement claim (parametric in the typing
   judgement `Γ ⊢ e` of C03, which is not yet modelled); `eval_refines_denote_partial` proves it
   for the ground integer / logic fragment (literals, `+ - *`, `< > ≤ ≥ = ≠`, `¬ & ∨ ⇒ ⇔` with the
-  short-circuit evaluation against the strong-Kleene tables) — binders, sets inside the
-  evaluator, the normaliser's rewrites and calls are covered by the correspondence + oracle run only;
+  short-circuit evaluation against the strong-Kleene tables);
+  `eval_refines_denote_partial1/2/3` prove it for the typed fragments `Frag … lvl` of
+  `Lemmas/EvalFrag.lean`: (1) every ground set construct (`∅ {…} (…) ∪ ∩ \ ∆ ∈ ∉ ⊆ ⊂ ⊄ card bool debool
+  red pr Pr × ℬ`), (2) globals under a canonical typed interpretation (`GlobalsOK`), (3) `∀ ∃` and
+  `D{x∈S | P}` over one plain variable, with the slot table of the evaluator tied to the scoped
+  environment of `⟦·⟧` (`Inv`); the normaliser is the identity there (`normalize_correct_partial3`).
+  Tuple patterns, enumerated declarations, calls, `R{}`, `I{}`, filters are covered by the
+  correspondence + oracle run only; `ℬ` carries a size guard (the bounds of model and reference agree: `pow_bound_agrees`);
 * `…_fixed`: the closed inputs on which the pinned code violated the claim, after the `fix:` commits.
 -/
 namespace CCVerif.Eval
@@ -39,174 +47,75 @@ theorem compare_trans (a b c : Val) (h1 : cmp a b = .lt) (h2 : cmp b c = .lt) : 
 
 /-! ## canonical sets -/
 
-private theorem pcSub {l1 l2 : List Val} (h : PairComparable l2) (hs : ∀ x ∈ l1, x ∈ l2) : PairComparable l1 :=
-  fun a ha b hb => h a (hs a ha) b (hs b hb)
-
-private theorem all_congr' {f g : Val → Bool} : ∀ {l : List Val}, (∀ x ∈ l, f x = g x) → l.all f = l.all g
-  | [], _ => rfl
-  | x :: l, h => by
-    simp only [List.all_cons]
-    rw [h x (by simp), all_congr' (fun y hy => h y (List.mem_cons_of_mem _ hy))]
-
 /-- `std::set::insert` keeps the list strictly increasing -/
 theorem insert_canonical (x : Val) (l : List Val) (h : sortedStrict l = true) : sortedStrict (insert x l) = true :=
-  insert_sorted h
+  SetOps.insert_canonical x l h
 
 /-- … and adds exactly the new element (which must be comparable with the old ones) -/
 theorem mem_insert (x y : Val) (l : List Val) (hc : ∀ z ∈ l, Comparable x z) :
-    y ∈ insert x l ↔ y = x ∨ y ∈ l := mem_insert_iff hc
+    y ∈ insert x l ↔ y = x ∨ y ∈ l := SetOps.mem_insert x y l hc
 
 /-- `Factory::Set`: canonical, with exactly the listed members -/
-theorem mkSet_canonical (xs : List Val) : sortedStrict (mkSetList xs) = true := mkSetList_sorted xs
+theorem mkSet_canonical (xs : List Val) : sortedStrict (mkSetList xs) = true := SetOps.mkSet_canonical xs
 theorem mem_mkSet (xs : List Val) (y : Val) (hc : PairComparable xs) : y ∈ mkSetList xs ↔ y ∈ xs :=
-  mem_mkSetList_iff hc
+  SetOps.mem_mkSet xs y hc
 
 /-- `std::set::contains` (ordered search) is membership -/
 theorem contains_iff_mem (l : List Val) (x : Val) (hs : sortedStrict l = true) (hc : ∀ y ∈ l, Comparable x y) :
-    mem x l = true ↔ x ∈ l := mem_iff hs hc
+    mem x l = true ↔ x ∈ l := SetOps.contains_iff_mem l x hs hc
 
 /-- extensionality of canonical sets -/
 theorem canonical_ext (l1 l2 : List Val) (h1 : sortedStrict l1 = true) (h2 : sortedStrict l2 = true)
-    (h : ∀ x, x ∈ l1 ↔ x ∈ l2) : l1 = l2 := sorted_ext h1 h2 h
+    (h : ∀ x, x ∈ l1 ↔ x ∈ l2) : l1 = l2 := SetOps.canonical_ext l1 l2 h1 h2 h
 
-theorem union_canonical (xs ys : List Val) : sortedStrict (union xs ys) = true :=
-  insertAll_sorted ys (insertAll_sorted xs (by simp [sortedStrict]))
+theorem union_canonical (xs ys : List Val) : sortedStrict (union xs ys) = true := SetOps.union_canonical xs ys
 
 theorem mem_union (xs ys : List Val) (z : Val) (hc : PairComparable (xs ++ ys)) :
-    z ∈ union xs ys ↔ z ∈ xs ∨ z ∈ ys := by
-  have hx : PairComparable xs := pcSub hc (fun x hx => by simp [hx])
-  have h1 : ∀ w, w ∈ insertAll [] xs ↔ w ∈ xs := fun w => by
-    have := mem_insertAll_iff xs (acc := []) (y := w) (by simpa using hx)
-    simpa using this
-  have hc2 : PairComparable (insertAll [] xs ++ ys) := pcSub hc (fun w hw => by
-    rcases List.mem_append.mp hw with m | m
-    · simp [(h1 w).mp m]
-    · simp [m])
-  unfold union
-  rw [mem_insertAll_iff ys hc2, h1]
+    z ∈ union xs ys ↔ z ∈ xs ∨ z ∈ ys := SetOps.mem_union xs ys z hc
 
-theorem inter_canonical (xs ys : List Val) : sortedStrict (inter xs ys) = true :=
-  insertAll_sorted _ (by simp [sortedStrict])
+theorem inter_canonical (xs ys : List Val) : sortedStrict (inter xs ys) = true := SetOps.inter_canonical xs ys
 
 theorem mem_inter (xs ys : List Val) (z : Val) (hs : sortedStrict xs = true) (hc : PairComparable (xs ++ ys)) :
-    z ∈ inter xs ys ↔ z ∈ xs ∧ z ∈ ys := by
-  have hf : PairComparable (ys.filter (fun y => mem y xs)) :=
-    pcSub hc (fun w hw => by simp [(List.mem_filter.mp hw).1])
-  unfold inter
-  have := mem_mkSetList_iff (y := z) hf
-  unfold mkSetList at this
-  rw [this, List.mem_filter]
-  constructor
-  · rintro ⟨hy, hm⟩
-    exact ⟨(mem_iff hs (fun y hy' => hc z (by simp [hy]) y (by simp [hy']))).mp hm, hy⟩
-  · rintro ⟨hx, hy⟩
-    exact ⟨hy, (mem_iff hs (fun y hy' => hc z (by simp [hy]) y (by simp [hy']))).mpr hx⟩
+    z ∈ inter xs ys ↔ z ∈ xs ∧ z ∈ ys := SetOps.mem_inter xs ys z hs hc
 
-theorem diff_canonical (xs ys : List Val) : sortedStrict (diff xs ys) = true :=
-  insertAll_sorted _ (by simp [sortedStrict])
+theorem diff_canonical (xs ys : List Val) : sortedStrict (diff xs ys) = true := SetOps.diff_canonical xs ys
 
 theorem mem_diff (xs ys : List Val) (z : Val) (hs : sortedStrict ys = true) (hc : PairComparable (xs ++ ys)) :
-    z ∈ diff xs ys ↔ z ∈ xs ∧ z ∉ ys := by
-  have hf : PairComparable (xs.filter (fun x => !mem x ys)) :=
-    pcSub hc (fun w hw => by simp [(List.mem_filter.mp hw).1])
-  unfold diff
-  have := mem_mkSetList_iff (y := z) hf
-  unfold mkSetList at this
-  rw [this, List.mem_filter]
-  constructor
-  · rintro ⟨hx, hm⟩
-    refine ⟨hx, fun hy => ?_⟩
-    have := (mem_iff hs (fun y hy' => hc z (by simp [hx]) y (by simp [hy']))).mpr hy
-    simp [this] at hm
-  · rintro ⟨hx, hy⟩
-    refine ⟨hx, ?_⟩
-    have : mem z ys ≠ true := fun hm => hy ((mem_iff hs (fun y hy' => hc z (by simp [hx]) y (by simp [hy']))).mp hm)
-    simpa using this
+    z ∈ diff xs ys ↔ z ∈ xs ∧ z ∉ ys := SetOps.mem_diff xs ys z hs hc
 
-theorem symDiff_canonical (xs ys : List Val) : sortedStrict (symDiff xs ys) = true :=
-  insertAll_sorted _ (insertAll_sorted _ (by simp [sortedStrict]))
+theorem symDiff_canonical (xs ys : List Val) : sortedStrict (symDiff xs ys) = true := SetOps.symDiff_canonical xs ys
 
 theorem mem_symDiff (xs ys : List Val) (z : Val) (hsx : sortedStrict xs = true) (hsy : sortedStrict ys = true)
     (hc : PairComparable (xs ++ ys)) :
-    z ∈ symDiff xs ys ↔ (z ∈ xs ∧ z ∉ ys) ∨ (z ∈ ys ∧ z ∉ xs) := by
-  have hc' : PairComparable (ys ++ xs) := pcSub hc (fun w hw => by
-    rcases List.mem_append.mp hw with m | m <;> simp [m])
-  have e : symDiff xs ys = insertAll (diff xs ys) (ys.filter (fun y => !mem y xs)) := rfl
-  have hd := mem_diff xs ys
-  have hcc : PairComparable (diff xs ys ++ ys.filter (fun y => !mem y xs)) := pcSub hc (fun w hw => by
-    rcases List.mem_append.mp hw with m | m
-    · simp [((hd w hsy hc).mp m).1]
-    · simp [(List.mem_filter.mp m).1])
-  rw [e, mem_insertAll_iff _ hcc, hd z hsy hc, List.mem_filter]
-  constructor
-  · rintro (h | ⟨hy, hm⟩)
-    · exact Or.inl h
-    · refine Or.inr ⟨hy, fun hx => ?_⟩
-      have := (mem_iff hsx (fun y hy' => hc' z (by simp [hy]) y (by simp [hy']))).mpr hx
-      simp [this] at hm
-  · rintro (h | ⟨hy, hx⟩)
-    · exact Or.inl h
-    · refine Or.inr ⟨hy, ?_⟩
-      have : mem z xs ≠ true := fun hm => hx ((mem_iff hsx (fun y hy' => hc' z (by simp [hy]) y (by simp [hy']))).mp hm)
-      simpa using this
+    z ∈ symDiff xs ys ↔ (z ∈ xs ∧ z ∉ ys) ∨ (z ∈ ys ∧ z ∉ xs) := SetOps.mem_symDiff xs ys z hsx hsy hc
 
-/-! ## the evaluator's set operations are the reference operations -/
+/-! ## the evaluator's set operations are the reference operations
+(proofs: `Lemmas/EvalSetOps.lean`, `Lemmas/EvalPow.lean`) -/
 
-theorem isMember_iff (x : Val) (l : List Val) : isMember x l = true ↔ x ∈ l := by
-  simp [isMember]
+theorem isMember_iff (x : Val) (l : List Val) : isMember x l = true ↔ x ∈ l := SetOps.isMember_iff x l
 
 /-- `SDSet::Union` = the set with the members of both (no hypothesis: same fold) -/
-theorem union_agrees (xs ys : List Val) : Val.s (union xs ys) = setOf (xs ++ ys) := by
-  simp [union, setOf, mkSet, mkSetList, insertAll, List.foldl_append]
+theorem union_agrees (xs ys : List Val) : Val.s (union xs ys) = setOf (xs ++ ys) := SetOps.union_agrees xs ys
 
 theorem inter_agrees (xs ys : List Val) (hs : sortedStrict xs = true) (hc : PairComparable (xs ++ ys)) :
-    Val.s (inter xs ys) = setOf (xs.filter (isMember · ys)) := by
-  simp only [setOf, mkSet]
-  congr 1
-  apply sorted_ext (inter_canonical xs ys) (mkSetList_sorted _)
-  intro z
-  have hf : PairComparable (xs.filter (isMember · ys)) := pcSub hc (fun w hw => by simp [(List.mem_filter.mp hw).1])
-  rw [mem_inter xs ys z hs hc, mem_mkSetList_iff hf, List.mem_filter, isMember_iff]
+    Val.s (inter xs ys) = setOf (xs.filter (isMember · ys)) := SetOps.inter_agrees xs ys hs hc
 
 theorem diff_agrees (xs ys : List Val) (hs : sortedStrict ys = true) (hc : PairComparable (xs ++ ys)) :
-    Val.s (diff xs ys) = setOf (xs.filter (!isMember · ys)) := by
-  simp only [setOf, mkSet]
-  congr 1
-  apply sorted_ext (diff_canonical xs ys) (mkSetList_sorted _)
-  intro z
-  have hf : PairComparable (xs.filter (!isMember · ys)) := pcSub hc (fun w hw => by simp [(List.mem_filter.mp hw).1])
-  rw [mem_diff xs ys z hs hc, mem_mkSetList_iff hf, List.mem_filter]
-  simp [isMember]
+    Val.s (diff xs ys) = setOf (xs.filter (!isMember · ys)) := SetOps.diff_agrees xs ys hs hc
 
 theorem symDiff_agrees (xs ys : List Val) (hsx : sortedStrict xs = true) (hsy : sortedStrict ys = true)
     (hc : PairComparable (xs ++ ys)) :
-    Val.s (symDiff xs ys) = setOf (xs.filter (!isMember · ys) ++ ys.filter (!isMember · xs)) := by
-  simp only [setOf, mkSet]
-  congr 1
-  apply sorted_ext (symDiff_canonical xs ys) (mkSetList_sorted _)
-  intro z
-  have hf : PairComparable (xs.filter (!isMember · ys) ++ ys.filter (!isMember · xs)) := pcSub hc (fun w hw => by
-    rcases List.mem_append.mp hw with m | m <;> simp [(List.mem_filter.mp m).1])
-  rw [mem_symDiff xs ys z hsx hsy hc, mem_mkSetList_iff hf, List.mem_append, List.mem_filter, List.mem_filter]
-  simp [isMember]
+    Val.s (symDiff xs ys) = setOf (xs.filter (!isMember · ys) ++ ys.filter (!isMember · xs)) :=
+  SetOps.symDiff_agrees xs ys hsx hsy hc
 
 /-- `Contains` / `IsSubsetOrEq` of the evaluator = membership / inclusion of the reference -/
 theorem mem_agrees (x : Val) (ys : List Val) (hs : sortedStrict ys = true) (hc : ∀ y ∈ ys, Comparable x y) :
-    mem x ys = isMember x ys := by
-  have h1 := mem_iff hs hc
-  have h2 := isMember_iff x ys
-  cases hm : mem x ys <;> cases hi : isMember x ys <;> simp_all
+    mem x ys = isMember x ys := SetOps.mem_agrees x ys hs hc
 
 theorem subsetEq_agrees (xs ys : List Val) (hs : sortedStrict ys = true) (hc : PairComparable (xs ++ ys)) :
-    subsetEq xs ys = isSubset xs ys := by
-  unfold subsetEq isSubset
-  apply all_congr'
-  intro x hx
-  exact mem_agrees x ys hs (fun y hy => hc x (by simp [hx]) y (by simp [hy]))
+    subsetEq xs ys = isSubset xs ys := SetOps.subsetEq_agrees xs ys hs hc
 
 /-! ## refinement -/
-
-def senvOf (env : Env) : SEnv := { globals := env.globals, funcs := env.funcs }
 
 /-- **full statement**: for every accepted expression, a value returned by the evaluator is the
 value of the reference semantics (`Typed` = the typing judgement of the checker, C03) -/
@@ -297,6 +206,110 @@ example : GLog sample :=
       (.arith _ _ _ (by simp [isArith]) (.arith _ _ _ (by simp [isArith]) (.lit _ _ _) (.lit _ _ _)) (.lit _ _ _)) (.lit _ _ _))
     (.not _ _ _ (.eq _ _ _ (by simp [isEq]) (.lit _ _ _) (.lit _ _ _)))
 example : (evaluate 10 {} sample).1 = .okBool true ∧ denote {} 10 .nil sample = some (.bool true) := by decide
+
+/-! ## stages 1-3: set-valued expressions, globals, binders over one plain variable
+
+`Frag env G lvl Γ e τ` (`Lemmas/EvalFrag.lean`) is the typed fragment: `lvl = 1` ground set-valued
+expressions (`∅`, `{…}`, tuples, `∪ ∩ \ ∆`, `∈ ∉ ⊆ ⊂ ⊄`, `card`, `bool debool red`, `pr Pr`, `×`, and
+`ℬ` of an operand with at most `2^POW_BOUND` subsets), `lvl = 2` adds globals whose interpretation
+is canonical and typed (`GlobalsOK`), `lvl = 3` adds `∀ ∃` and `D{x∈S | P}` over one plain variable
+(no tuple pattern, no enumerated declaration, no shadowing). -/
+
+/-- stage 1: closed ground expressions, integer-, set- or truth-valued -/
+def Stage1 (env : Env) (e : Ast) : Prop := ∃ τ, Frag env [] 1 [] e τ
+/-- stage 2: + globals; the canonical-values hypothesis on the interpretation is explicit -/
+def Stage2 (env : Env) (e : Ast) : Prop := ∃ G τ, GlobalsOK env G ∧ Frag env G 2 [] e τ
+/-- stage 3: + quantifiers and the declarative set-builder with a single plain variable -/
+def Stage3 (env : Env) (e : Ast) : Prop := ∃ G τ, GlobalsOK env G ∧ Frag env G 3 [] e τ
+
+theorem globalsOK_nil (env : Env) : GlobalsOK env [] := by
+  intro g τ h; simp [lookup] at h
+
+theorem stage1_sub_stage2 {env : Env} {e : Ast} (h : Stage1 env e) : Stage2 env e :=
+  let ⟨τ, hf⟩ := h; ⟨[], τ, globalsOK_nil env, hf.mono (by decide)⟩
+theorem stage2_sub_stage3 {env : Env} {e : Ast} (h : Stage2 env e) : Stage3 env e :=
+  let ⟨G, τ, hG, hf⟩ := h; ⟨G, τ, hG, hf.mono (by decide)⟩
+
+private theorem refines_of_frag {env : Env} {G : TCtx} {lvl : Nat} (hG : GlobalsOK env G) {e : Ast} {τ : ExprTy}
+    (h : Frag env G lvl [] e τ) (fuel : Nat) :
+    (∀ v, (evaluate fuel env e).1 = .ok v → denote (senvOf env) fuel .nil e = some (.val v)) ∧
+    (∀ b, (evaluate fuel env e).1 = .okBool b → denote (senvOf env) fuel .nil e = some (.bool b)) := by
+  rcases evaluate_frag hG h fuel with hg | hf | ⟨eid, pos, he, _⟩
+  · cases τ with
+    | ty ty =>
+      obtain ⟨v, hr, _, _, hd⟩ := hg
+      constructor
+      · intro v' hv; rw [hr] at hv; injection hv with hv; rw [← hv]; exact hd
+      · intro b hb; rw [hr] at hb; cases hb
+    | logic =>
+      obtain ⟨b, hr, hd⟩ := hg
+      constructor
+      · intro v hv; rw [hr] at hv; cases hv
+      · intro b' hb; rw [hr] at hb; injection hb with hb; rw [← hb]; exact hd
+  · constructor <;> intro x hx <;> rw [hf] at hx <;> cases hx
+  · constructor <;> intro x hx <;> rw [he] at hx <;> cases hx
+
+/-- **eval_refines_denote_partial3**: the refinement for closed expressions built from literals,
+arithmetic, comparisons, connectives (short-circuit vs strong Kleene), every ground set construct,
+globals under a canonical typed interpretation, and `∀ ∃ D{·∈·|·}` over one plain variable.
+Missing from the full statement: tuple patterns and enumerated declarations (where the normaliser
+rewrites), calls, `R{}`, `I{}`, filters, `Z`; `ℬ` of operands with more than `2^POW_BOUND` subsets. -/
+theorem eval_refines_denote_partial3 : eval_refines_denote_statement Stage3 := by
+  intro env e ⟨G, τ, hG, hf⟩ fuel
+  exact refines_of_frag hG hf fuel
+
+/-- **eval_refines_denote_partial2**: closed expressions over globals (no binders) -/
+theorem eval_refines_denote_partial2 : eval_refines_denote_statement Stage2 :=
+  fun env e h => eval_refines_denote_partial3 env e (stage2_sub_stage3 h)
+
+/-- **eval_refines_denote_partial1**: ground set-valued expressions -/
+theorem eval_refines_denote_partial1 : eval_refines_denote_statement Stage1 :=
+  fun env e h => eval_refines_denote_partial2 env e (stage1_sub_stage2 h)
+
+/-- **normalize_correct_partial3**: on the three fragments the normaliser is the identity (single plain
+binder variables are not rewritten) -/
+theorem normalize_correct_partial3 : normalize_correct_statement Stage3 := by
+  intro env e n ⟨G, τ, _, hf⟩ fuel hn
+  rcases normalizeTree_shape hf.shape_closed fuel with h0 | h0 <;> rw [h0] at hn
+  · cases hn
+  · injection hn with hn; rw [← hn]
+
+/-- the canonical-sets theorems above now cover the two lazy sets as well: the iteration order of
+`SDPowerSet` / `SDDecartian` lists exactly the canonical set of all subsets / all tuples -/
+theorem pow_agrees' (xs : List Val) (τ : Ty) (hn : Ty.noAny τ = true) (ht : Ty.hasTyAll xs τ = true)
+    (hs : sortedStrict xs = true) : Val.s (pow xs) = setOf ((subsets xs).map setOf) := pow_agrees xs τ hn ht hs
+
+theorem prod_agrees' (fs : List (List Val)) (ts : List Ty) (hn : Ty.noAnyList ts = true)
+    (ht : List.Forall₂ (fun f t => Ty.hasTyAll f t = true) fs ts) (hs : ∀ f ∈ fs, sortedStrict f = true) :
+    Val.s (prod fs) = setOf ((tuples fs).map Val.t) := prod_agrees fs ts hn ht hs
+
+/-! non-vacuity of the three stages (witnesses in `Lemmas/EvalExamples.lean`):
+`card(ℬ({1,2})) = 4 & pr1((1,{2})) ∈ {1,2}\{2}`;
+`Pr1(D1) ⊆ X1 & (X1×X1) ∩ D1 = D1`;
+`(∀x∈X1 ∃y∈X1 ((x,y)∈D1 ∨ (y,x)∈D1)) & D{x∈X1 | ∃y∈X1 (x,y)∈D1} = Pr1(D1)`
+over `X1 = {1,2,3}`, `D1 = {(1,2),(2,3)}`: members of the fragments, evaluated to `true`, denoted `true` -/
+example : Stage1 {} Examples.e1 := ⟨_, Examples.e1_frag {}⟩
+example : (evaluate 20 {} Examples.e1).1 = .okBool true ∧ denote (senvOf {}) 20 .nil Examples.e1 = some (.bool true) := by
+  decide
+example : Stage2 Examples.envS Examples.e2 := ⟨_, _, Examples.globalsOK_S, Examples.e2_frag⟩
+example : (evaluate 20 Examples.envS Examples.e2).1 = .okBool true ∧
+    denote (senvOf Examples.envS) 20 .nil Examples.e2 = some (.bool true) := by decide
+example : Stage3 Examples.envS Examples.e3 := ⟨_, _, Examples.globalsOK_S, Examples.e3_frag⟩
+example : (evaluate 20 Examples.envS Examples.e3).1 = .okBool true ∧
+    denote (senvOf Examples.envS) 20 .nil Examples.e3 = some (.bool true) := by decide
+/-- `card(ℬ({0,…,10}))` -/
+def powGap : Ast :=
+  .node .CARD .none 0 0 [.node .BOOLEAN .none 0 0 [.node .NT_ENUMERATION .none 0 0
+    ((List.range 11).map fun (i : Nat) => Ast.node .LIT_INTEGER (.int (Int.ofNat i)) 0 0 [])]]
+
+/-- **pow_bound_agrees**: the reference semantics enumerates power sets of operands with at most
+`POW_BOUND` members and the evaluator model up to `POW_LIMIT`; the two bounds are equal (a gap
+between them - `POW_BOUND = 10 < POW_LIMIT = 12` until it was found by the proof of
+`eval_refines_denote_partial1` - made the evaluator answer where `⟦·⟧` had no value; the former witness
+`card(ℬ({0..10}))` evaluates to `2048`, as the C++ does). -/
+theorem pow_bound_agrees :
+    Spec.POW_BOUND = Eval.POW_LIMIT ∧ (evaluate 20 {} powGap).1 = .ok (.e 2048) := by
+  decide +kernel
 
 /-! ## former counterexamples (before the `fix:` commits in ASTNormalizer.cpp / NameCollector.cpp):
 the inputs on which the pinned code violated the claim now evaluate to the reference value
